@@ -636,12 +636,16 @@ func (h *harness) phaseIAM(n1 *nodeRef) {
 		if i%2 == 1 {
 			w.Scope = "test"
 		}
-		_, sid, b, err := w.RunUserFlow(fmt.Sprintf("c03-user-%d", i), nil)
+		redir, sid, err := w.UserFlowStart(fmt.Sprintf("c03-user-%d", i))
 		w.Scope = "test"
 		if err != nil {
 			r.Fatalf("user flow: %v", err)
 		}
-		last := b.Hops[len(b.Hops)-1]
+		b := &pathBrowser{}
+		last, err := b.follow(redir, w.Proxy.URL, 20)
+		if err != nil {
+			r.Fatalf("user flow: %v", err)
+		}
 		resp, err := w.UserToken(sid)
 		if err != nil {
 			r.Fatalf("user token: %v", err)
@@ -650,16 +654,17 @@ func (h *harness) phaseIAM(n1 *nodeRef) {
 		_ = resp.JSON(&m)
 		tok, _ := m["access_token"].(string)
 		if tok == "" {
-			r.Fatalf("user flow did not end in an access token (last hop %d %s → %s; token response %s)", last.Status, short(last.URL, 2500), short(last.Location, 160), resp)
+			for _, ck := range b.cookies { fmt.Printf("COOKIE %s path=%q value=%s\n", ck.Name, ck.Path, ck.Value) }; for _, hp := range b.Hops { fmt.Printf("HOP %d %s\n", hp.Status, short(hp.URL, 150)) }
+			r.Fatalf("user flow did not end in an access token (last hop %d → %s; token response %s)", last.Status, short(last.Location, 160), resp)
 		}
 		introspect(tok)
 		r.Count("user_flows", 1)
-		for name, v := range b.Cookies {
-			if !strings.Contains(name, "SID") {
+		for _, ck := range b.cookies {
+			if !strings.Contains(ck.Name, "SID") {
 				continue
 			}
 			var s user.Session
-			if err := store.Get(v, &s); err != nil {
+			if err := store.Get(ck.Value, &s); err != nil {
 				continue
 			}
 			key, err := s.Wallet.Key()
@@ -1010,7 +1015,7 @@ func (h *harness) phaseDIDNuts(verbosity string, env map[string]string, namer fu
 	for _, body := range []map[string]any{
 		{"format": "ldp_vc", "publishToNetwork": true, "visibility": "public"},
 		{"format": "jwt_vc", "publishToNetwork": false},
-		{"format": "ldp_vc", "publishToNetwork": false, "withStatusList2021Revocation": false},
+		{"format": "ldp_vc", "publishToNetwork": false},
 	} {
 		body["type"] = "NutsOrganizationCredential"
 		body["issuer"] = nutsDIDs[0]
